@@ -3,6 +3,7 @@ use crate::Cfg;
 use serde_json::Value;
 
 pub mod c01;
+pub mod c02;
 pub mod c03;
 pub mod c04;
 pub mod c05;
@@ -23,6 +24,7 @@ pub mod c18a;
 pub fn run(cfg: &Cfg) -> Option<Report> {
     Some(match cfg.prop.as_str() {
         "C01" => c01::run(cfg),
+        "C02" => c02::run(cfg),
         "C03" => c03::run(cfg),
         "C04" => c04::run(cfg),
         "C05" => c05::run(cfg),
@@ -45,6 +47,7 @@ pub fn run(cfg: &Cfg) -> Option<Report> {
 pub fn replay(cfg: &Cfg, case: &Value) -> Option<Report> {
     Some(match cfg.prop.as_str() {
         "C01" => c01::replay(cfg, case),
+        "C02" => c02::replay(cfg, case),
         "C03" => c03::replay(cfg, case),
         "C04" => c04::replay(cfg, case),
         "C05" => c05::replay(cfg, case),
